@@ -28,6 +28,17 @@ def worker(job):
     if isinstance(model, Rejected):
         problems.append(("rejected", "the constructor rejected the configuration: %s" % model.exc, getattr(model.exc, "site", None)))
         return dict(cfg=cfg, problems=problems)
+    if spec.get("group_average"):
+        # the model behind the symmetrisation wrapper, averaging switched on: same declared signature, same type order
+        from .c02 import group
+
+        ops_ = [A.as_arr(g) for g in group(D)[: spec["group_average"]]]
+        models_ = it.get_module(MODELS_MOD)
+        inner_ = model
+        model = attempt(lambda: models_.GroupAverage(inner_, ops_, True, False))
+        if isinstance(model, Rejected):
+            problems.append(("rejected", "GroupAverage rejected the model: %s" % model.exc, None))
+            return dict(cfg=cfg, problems=problems)
     N = spatial_for(spec)
     flags = tuple(spec.get("is_torus", (True,) * D))
     in_sig = [(tuple(t), c) for t, c in spec["input"]]
@@ -181,6 +192,12 @@ def run(ctx):
             i, o = sigs[0]
             specs.append(dict(D=D, cls=cls, equivariant=True, input=i, output=o, depth=2, use_group_norm=True, use_bias="auto", activation="relu", mid_keys=[((0, 0), 2), ((1, 0), 3), ((1, 1), 1)], num_downsamples=1, num_conv=1, is_torus=[True] + [False] * (D - 1)))
             specs.append(dict(D=D, cls=cls, equivariant=False, input=i, output=o, depth=2, use_group_norm=False, use_bias="auto", activation="relu", kernel_size=3, mid_keys=[((0, 0), 5)], num_downsamples=1, num_conv=2))
+    # behind GroupAverage (averaging on): unsorted requested signatures must come back in the requested order
+    for eq in (True, False):
+        sp_ = dict(D=2, cls="ResNet", equivariant=eq, input=sigs[0][0], output=sigs[0][1], depth=2, use_group_norm=False, use_bias="auto", activation="relu", num_blocks=1, num_conv=1, group_average=2)
+        if not eq:
+            sp_["kernel_size"] = 3
+        specs.append(sp_)
     # single-type signatures of every type (the degenerate signatures where "nothing to fold back" short cuts live):
     # one scalar, one pseudoscalar, one vector, one pseudovector block, asked of every model in both modes
     for D in (2, 3):
